@@ -9,6 +9,7 @@ package main
 
 import (
 	"encoding/json"
+	"errors"
 	"fmt"
 	"math"
 	"reflect"
@@ -35,7 +36,8 @@ type HistInput struct {
 	Obs  bool   `json:"obs"` // observe everything after every mutator
 	// Noise: settings that have nothing to say about the list behaviour, applied
 	// right after construction: 1 mutex, 2 id+category, 4 symbol+delimiter,
-	// 8 encapsulation, 16 log levels
+	// 8 encapsulation, 16 log levels, 32 a validity policy that fails, 64 one that
+	// fails while the length is odd
 	Noise int `json:"noise,omitempty"`
 }
 
@@ -54,6 +56,16 @@ func applyNoise(s stk.Stack, noise int) {
 	}
 	if noise&16 != 0 {
 		s.SetLogLevel("DEBUG", 4)
+	}
+	if noise&32 != 0 {
+		s.SetValidityPolicy(func(...any) error { return errors.New("noise: not valid") })
+	} else if noise&64 != 0 {
+		s.SetValidityPolicy(func(...any) error {
+			if s.Len()%2 == 1 {
+				return errors.New("noise: odd length")
+			}
+			return nil
+		})
 	}
 }
 
@@ -557,10 +569,15 @@ func randIndex(r *Rng, n int) int {
 	return r.Range(-n-2, n+2)
 }
 
+// bigCaps: a limit is a limit at every size
+var bigCaps = []int{127, 255, 256, 4096, 65535, 65536, 70000}
+
 func randHist(r *Rng, maxOps int, stacks bool) HistInput {
 	in := HistInput{Kind: kinds[r.Intn(5)], Cap: -1, Obs: true}
 	if r.Pct(55) {
 		in.Cap = r.Range(0, 6)
+	} else if r.Pct(6) {
+		in.Cap = bigCaps[r.Intn(len(bigCaps))]
 	}
 	if r.Pct(40) {
 		in.Ops = append(in.Ops, HOp{Op: "setfifo", I: 1})
@@ -578,7 +595,7 @@ func randHist(r *Rng, maxOps int, stacks bool) HistInput {
 		switch {
 		case x < 22:
 			m := r.Range(1, 4)
-			if in.Cap > 0 && r.Pct(30) {
+			if in.Cap > 0 && in.Cap <= 300 && r.Pct(30) {
 				m = r.Range(in.Cap-1, in.Cap+2)
 				if m < 1 {
 					m = 1
@@ -624,7 +641,7 @@ func randHist(r *Rng, maxOps int, stacks bool) HistInput {
 		}
 	}
 	if r.Pct(40) {
-		in.Noise = 1 + r.Intn(31)
+		in.Noise = 1 + r.Intn(127)
 	}
 	return in
 }
@@ -666,6 +683,11 @@ func genHist(ctx *Ctx, emit func(any, string)) {
 		}
 	}
 	rec(nil, depth)
+	for _, cp := range bigCaps {
+		for _, k := range kinds {
+			emit(HistInput{Kind: k, Cap: cp, Obs: true, Ops: []HOp{{Op: "push", Vs: []int{1, 2}}, {Op: "pop"}, {Op: "push", Vs: []int{3}}, {Op: "insert", I: 0, Vs: []int{4}}}}, "exhaustive")
+		}
+	}
 	n := ctx.N(400, 20000)
 	for i := 0; i < n; i++ {
 		emit(randHist(ctx.Rng.Fork(), 40, true), "random")
@@ -806,7 +828,7 @@ func genNesting(ctx *Ctx, emit func(any, string)) {
 			in.Ops = append(in.Ops, HOp{Op: "cannest"}, HOp{Op: "isnesting"})
 		}
 		if r.Pct(40) {
-			in.Noise = 1 + r.Intn(31)
+			in.Noise = 1 + r.Intn(127)
 		}
 		emit(in, "random")
 	}
@@ -850,7 +872,7 @@ func genPolicy(ctx *Ctx, emit func(any, string)) {
 			}
 		}
 		if r.Pct(40) {
-			in.Noise = 1 + r.Intn(31)
+			in.Noise = 1 + r.Intn(127)
 		}
 		emit(in, "random")
 	}
